@@ -9,12 +9,14 @@ id and a cache from node identity `(combination, path)` to lists of cell ids. Th
 stream of recorded `randint` results.
 -/
 
+abbrev NodeKey := List Nat × List Nat
+
 structure BCell (α : Type) where
   ivs : List (Ival α)
   count : Int
+  /-- ghost (never read by the computation, not part of the output): identity of the node whose harvest created the cell -/
+  owner : NodeKey := ([], [])
 deriving Inhabited
-
-abbrev NodeKey := List Nat × List Nat
 
 structure HState (α : Type) where
   cells : Array (BCell α) := #[]
@@ -42,13 +44,14 @@ def adjustCountsPure (cs : List Int) (current target : Int) : List Int :=
   adjustLoop ((ofInt target : α) / ofInt current) cs (ofInt 0)
 
 namespace HM
-def newCell (ivs : List (Ival α)) (count : Int) : HM α Nat := do
+def newCell (owner : NodeKey) (ivs : List (Ival α)) (count : Int) : HM α Nat := do
   let s ← get
-  set { s with cells := s.cells.push ⟨ivs, count⟩ }
+  set { s with cells := s.cells.push ⟨ivs, count, owner⟩ }
   return s.cells.size
 def cell (id : Nat) : HM α (BCell α) := do return (← get).cells[id]!
-def setCount (id : Nat) (c : Int) : HM α Unit :=
-  modify fun s => { s with cells := s.cells.modify id (fun b => { b with count := c }) }
+/-- the in-place `bucket.count = v` updates of `_adjust_counts`, in order -/
+def setCounts (cells : Array (BCell α)) (pairs : List (Nat × Int)) : Array (BCell α) :=
+  pairs.foldl (fun cs p => cs.modify p.1 (fun b => { b with count := p.2 })) cells
 /-- `unsafe_rng.randint(0, hi)` -/
 def randint (hi : Int) : HM α Nat := do
   if hi < 0 then throw "value"       -- `randint(0, -1)`: empty range
@@ -139,11 +142,10 @@ def perSubnodeRuns (smallest : List (Ival α)) (subb : List (List (BCell α))) :
       if (List.zip ss b.ivs).all (fun (s, iv) => s.containsIval iv) && b.ivs.length == dims - 1 then some (b.ivs, b.count) else none
 
 /-- `_match_subintervals`: `count` new buckets of count 1 -/
-def matchSubintervals (count : Int) (perDim : List (List (Ival α × Int))) (perSub : List (List (List (Ival α) × Int))) :
-    HM α (List Nat) := do
+def matchSubintervals (owner : NodeKey) (count : Int) (perDim : List (List (Ival α × Int)))
+    (perSub : List (List (List (Ival α) × Int))) : HM α (List Nat) :=
   let dims := perDim.length
-  let mut out : List Nat := []
-  for mc in [0:count.toNat] do
+  (List.range count.toNat).mapM fun mc => do
     let si := mc % dims
     let di := dims - si - 1
     let sl := perSub.getD si []
@@ -151,11 +153,11 @@ def matchSubintervals (count : Int) (perDim : List (List (Ival α × Int))) (per
     let a ← HM.randint (runsLength sl - 1)
     let b ← HM.randint (runsLength dl - 1)
     match lookupRun sl a, lookupRun dl b with
-    | some sivs, some div =>
-        let id ← HM.newCell (sivs.take di ++ [div] ++ sivs.drop di) 1
-        out := out ++ [id]
+    | some sivs, some div => HM.newCell owner (sivs.take di ++ [div] ++ sivs.drop di) 1
     | _, _ => throw "index"
-  return out
+
+/-- sum of the current counts of the given cells -/
+def sumCounts (cells : Array (BCell α)) (ids : List Nat) : Int := (ids.map (fun id => cells[id]!.count)).sum
 
 mutual
 /-- `_harvest_node` -/
@@ -178,7 +180,7 @@ def harvestLeaf (E : Env α) (c : FCtx α) : Nat → Node α → HM α (List Nat
     if n.overThreshold E c c.ap.supp.lt then
       let cnt ← liftEx (n.noisyCount E c)
       if n.isSing || n.dims == 1 then
-        let id ← HM.newCell n.bucketIntervals cnt
+        let id ← HM.newCell (nodeKey n) n.bucketIntervals cnt
         return [id]
       else refineBuckets E c fuel n cnt
     else return []
@@ -187,25 +189,22 @@ def harvestLeaf (E : Env α) (c : FCtx α) : Nat → Node α → HM α (List Nat
 def harvestBranch (E : Env α) (c : FCtx α) : Nat → Node α → List (Nat × Node α) → HM α (List Nat)
   | 0, _, _ => throw "fuel"
   | fuel+1, n, children => do
-    let mut ids : List Nat := []
-    for p in children do
-      ids := ids ++ (← harvestNode E c fuel p.2)
-    let mut cc : Int := 0
-    for id in ids do
-      cc := cc + (← HM.cell id).count
+    let idss ← children.mapM (fun p => harvestNode E c fuel p.2)
+    let ids := idss.flatten
+    let s ← get
+    let cc := sumCounts s.cells ids
     let parent ← liftEx (n.noisyCount E c)
     if 2 * cc < parent then
       if n.dims == 1 then
-        let id ← HM.newCell n.bucketIntervals parent
+        let id ← HM.newCell (nodeKey n) n.bucketIntervals parent
         return [id]
       else
         return ids ++ (← refineBuckets E c fuel n (parent - cc))
     else
       if cc == 0 then throw "zerodiv"
-      let cs ← ids.mapM (fun id => do return (← HM.cell id).count)
+      let cs := ids.map (fun id => s.cells[id]!.count)
       let cs' := adjustCountsPure (α := α) cs cc parent
-      for (id, v) in List.zip ids cs' do
-        HM.setCount id v
+      modify fun s => { s with cells := HM.setCounts s.cells (List.zip ids cs') }
       return ids
 
 /-- `_get_subbuckets` then `_refine_buckets` -/
@@ -214,18 +213,17 @@ def refineBuckets (E : Env α) (c : FCtx α) : Nat → Node α → Int → HM α
   | fuel+1, n, count => do
     let dims := n.dims
     let combs := genCombinations (dims - 1) dims
-    let mut subIds : List (List Nat) := []
-    for (sub, comb) in List.zip n.subnodes combs do
+    let subIds ← (List.zip n.subnodes combs).mapM (fun (sub, comb) => do
       let actualSub := comb.map (fun i => n.data.actual.getD i default)
       if actualSub.all Ival.isSing then
         let cnt ← liftEx (n.noisyCount E c)
-        let id ← HM.newCell actualSub cnt
-        subIds := subIds ++ [[id]]
+        let id ← HM.newCell (nodeKey n) actualSub cnt
+        return [id]
       else match sub with
-        | none => subIds := subIds ++ [[]]
-        | some s => subIds := subIds ++ [← harvestNode E c fuel s]
+        | none => return []
+        | some s => harvestNode E c fuel s)
     let fallback : HM α (List Nat) := do
-      let id ← HM.newCell n.bucketIntervals count
+      let id ← HM.newCell (nodeKey n) n.bucketIntervals count
       return [id]
     if subIds.any List.isEmpty then fallback else
     let subb ← subIds.mapM (fun ids => ids.mapM HM.cell)
@@ -234,7 +232,7 @@ def refineBuckets (E : Env α) (c : FCtx α) : Nat → Node α → Int → HM α
     let perDim := perDimensionRuns smallest subb
     let perSub := perSubnodeRuns smallest subb
     if perDim.any (fun l => runsLength l ≤ 0) || perSub.any (fun l => runsLength l ≤ 0) then fallback else
-    matchSubintervals count perDim perSub
+    matchSubintervals (nodeKey n) count perDim perSub
 end
 
 /-- `harvest(node, unsafe_rng)`: the buckets with a positive count, and how many RNG draws were consumed -/
